@@ -219,14 +219,25 @@ func (c13BoomIter) Next() interface{} { panic("verif: an iterator that panics") 
 
 // c13Disturb performs renders whose traces no later render may see: renders abandoned half-way (a panic in code of the
 // data, after output was produced), and renders WITHOUT data of the caller's (nil maps) that bind names at top level.
-func c13Disturb() {
-	func() {
-		defer func() { recover() }()
-		ctx := plush.NewContext()
-		ctx.Set("boom", c13Boom{})
-		ctx.Set("boomiter", c13BoomIter{})
-		plush.Render("leftover of an abandoned render<%= boom %><%= for (x) in boomiter { %>a<% } %>", ctx)
-	}()
+func c13Disturb() (seen string) {
+	// (the probe directly after an abandoned render, on the same goroutine: what the dead execution left lying about is
+	// most likely handed to the very next one)
+	after := func(what string) {
+		out, err := plush.Render("<b><%= 1 %></b>", plush.NewContext())
+		if (out != "<b>1</b>" || err != nil) && seen == "" {
+			seen = fmt.Sprintf("directly after %s, Render(\"<b><%%= 1 %%></b>\") gave (%q, %v)", what, out, err)
+		}
+	}
+	for _, src := range []string{"leftover of an abandoned render<%= boom %><%= for (x) in boomiter { %>a<% } %>", "leftover of an abandoned loop<%= for (x) in boomiter { %>a<% } %>"} {
+		func() {
+			defer func() { recover() }()
+			ctx := plush.NewContext()
+			ctx.Set("boom", c13Boom{})
+			ctx.Set("boomiter", c13BoomIter{})
+			plush.Render(src, ctx)
+		}()
+		after("a render abandoned by a panic in code of the data")
+	}
 	func() {
 		defer func() { recover() }()
 		const binds = `<% let leakprobe = "L" %><% contentFor("leakblock") { %>x<% } %><% len = 7 %>`
@@ -239,6 +250,7 @@ func c13Disturb() {
 		defer func() { recover() }()
 		plush.RunScript(`let leakprobe = "S"`, plush.NewContext())
 	}()
+	return seen
 }
 
 // c13LeakProbe: names bound by earlier renders (on contexts of their own) are unknown to a fresh context.
@@ -320,7 +332,9 @@ func c13Soak(c *Ctx, item *corpusItem) {
 		c.Fail("depends-on-earlier-renders:"+item.Label, fmt.Sprintf("%s rendered %q (error %q); rendered first in a process it gives %q", src, ref.Out, ref.Err, item.Want), cas)
 	}
 	for i := 0; i < 2; i++ {
-		c13Disturb()
+		if seen := c13Disturb(); seen != "" {
+			c.Fail("state-outlives-render:abandoned", seen, cas)
+		}
 		r, o := c13Exec(item, func(ctx *plush.Context) (string, error) { return t1.Exec(ctx) })
 		check("repeated-exec", r, o)
 	}
